@@ -47,10 +47,47 @@ class Violation(Exception):
         self.msg = msg
 
 
+class Guarded:
+    """Proxy around an object of the compiled extension: an exception other than the two documented ones
+    (ValueError for an off-grid price, OverflowError for an out-of-range integer; both handled by the caller)
+    raised by a call the Rust core accepts is a failure of the property, not of the harness."""
+
+    def __init__(self, obj, prop, what):
+        object.__setattr__(self, "_obj", obj)
+        object.__setattr__(self, "_prop", prop)
+        object.__setattr__(self, "_what", what)
+
+    def _convert(self, name, args, ex):
+        if isinstance(ex, (ValueError, OverflowError)) or type(ex).__name__ == "PanicException" or isinstance(ex, (KeyboardInterrupt, SystemExit, MemoryError)):
+            return ex
+        return Violation("%s Python call raised an undocumented exception" % self._prop, "%s.%s%r raised %r" % (self._what, name, args, ex))
+
+    def __getattr__(self, name):
+        try:
+            attr = getattr(self._obj, name)
+        except AttributeError:
+            raise
+        except BaseException as ex:  # a property getter of the extension raised
+            raise self._convert(name, (), ex)
+        if not callable(attr):
+            return attr
+
+        def call(*a, **k):
+            try:
+                return attr(*a, **k)
+            except BaseException as ex:  # noqa
+                c = self._convert(name, a + tuple(sorted(k.items())), ex)
+                if c is ex:
+                    raise
+                raise c
+
+        return call
+
+
 def order_tuple_from_oracle(o):
     """Documented tuple layout of an order: side (True = bid), status code, arrival, end, volume,
     starting volume, price, trader id, order id."""
-    return (o["bid"], STATUS_CODE[o["status"]], o["arr_time"], o["end_time"], o["vol"], o["start_vol"], o["price"], o["trader_id"], o["order_id"])
+    return (o["bid"], STATUS_CODE.get(o["status"], -1), o["arr_time"], o["end_time"], o["vol"], o["start_vol"], o["price"], o["trader_id"], o["order_id"])
 
 
 def trade_tuple_from_oracle(t):
@@ -111,16 +148,10 @@ class Stats:
                     self.samples.append(case)
 
 
-def run_parts(prop, tier, parts, rule, assumptions, replay_runner):
-    """parts: list of (name, n_cases, strategy, runner(case) -> (nontrivial, classes) raising Violation)."""
+def _run_random_parts(prop, parts, stats, known, known_hits, violations, shard, shards):
+    """Runs the Hypothesis parts (this process's share of the cases). Appends to `violations` tuples (path, sig, msg)."""
     import hypothesis
     from hypothesis import HealthCheck, given, settings
-
-    t0 = time.time()
-    stats = Stats()
-    known = load_known(prop)
-    known_hits = {}
-    violations = []
 
     def is_known(sig):
         for s, what in known:
@@ -128,35 +159,19 @@ def run_parts(prop, tier, parts, rule, assumptions, replay_runner):
                 return (s, what)
         return None
 
-    # replay tier
-    rdir = os.path.join(ROOT, "replays", prop)
-    n_rep = 0
-    if os.path.isdir(rdir):
-        for f in sorted(os.listdir(rdir)):
-            if not f.endswith(".json"):
-                continue
-            body = json.load(open(os.path.join(rdir, f)))
-            n_rep += 1
-            try:
-                nt, cl = replay_runner(body["part"], body["case"])
-                stats.record(body["case"], nt, cl)
-            except Violation as v:
-                k = is_known(v.sig)
-                if k:
-                    known_hits[k[0]] = known_hits.get(k[0], 0) + 1
-                else:
-                    violations.append((os.path.join(rdir, f), v))
-    stats.parts.append({"part": "replay", "kind": "saved regressions", "cases": n_rep})
-
-    for (name, n_cases, strategy, runner) in parts:
+    for pi, (name, n_cases, strategy, runner) in enumerate(parts):
         if violations:
             break
         n_cases = max(1, int(n_cases * SCALE))
+        # this shard's share
+        n_cases = n_cases // shards + (1 if shard < n_cases % shards else 0)
+        if n_cases == 0:
+            continue
         before = stats.evaluations
         tp = time.time()
         state = {"failing": None}
 
-        @hypothesis.seed(SEED * 1000003 + len(stats.parts))
+        @hypothesis.seed(SEED * 1000003 + 1 + pi + 7919 * shard)
         @settings(max_examples=n_cases, database=None, deadline=None, derandomize=False, suppress_health_check=list(HealthCheck), print_blob=False, report_multiple_bugs=False, phases=[hypothesis.Phase.generate, hypothesis.Phase.shrink])
         @given(strategy)
         def test(case):
@@ -185,16 +200,109 @@ def run_parts(prop, tier, parts, rule, assumptions, replay_runner):
         except AssertionError:
             case, v = state["last"]
             path = write_replay(prop, name, case, v.sig, v.msg)
-            violations.append((path, v))
+            violations.append((path, v.sig, v.msg))
         stats.parts.append({"part": name, "kind": "random (Hypothesis, seeded, shrinking)", "cases": stats.evaluations - before, "wall_s": time.time() - tp})
+
+
+def run_parts(prop, tier, parts, rule, assumptions, replay_runner):
+    """parts: list of (name, n_cases, strategy, runner(case) -> (nontrivial, classes) raising Violation).
+    The random parts are sharded over worker processes (each its own interpreter, extension module and oracle
+    server, Hypothesis seed derived from VERIF_SEED and the shard number); the parent replays the saved
+    regressions, merges the workers' statistics and writes the evidence."""
+    t0 = time.time()
+    known = load_known(prop)
+    shard_env = os.environ.get("VERIF_PY_SHARD")
+    if shard_env is not None:
+        # ---- worker
+        shard, shards = int(shard_env), int(os.environ["VERIF_PY_SHARDS"])
+        stats, known_hits, violations = Stats(), {}, []
+        _run_random_parts(prop, parts, stats, known, known_hits, violations, shard, shards)
+        out = {"evaluations": stats.evaluations, "nontrivial": sorted(stats.nontrivial), "samples": stats.samples, "classes": stats.classes, "parts": stats.parts, "known_hits": known_hits, "violations": violations}
+        json.dump(out, open(os.environ["VERIF_PY_OUT"], "w"))
+        return 0
+
+    stats = Stats()
+    known_hits = {}
+    violations = []
+
+    def is_known(sig):
+        for s, what in known:
+            if sig.startswith(s):
+                return (s, what)
+        return None
+
+    # replay tier
+    rdir = os.path.join(ROOT, "replays", prop)
+    n_rep = 0
+    if os.path.isdir(rdir):
+        for f in sorted(os.listdir(rdir)):
+            if not f.endswith(".json"):
+                continue
+            body = json.load(open(os.path.join(rdir, f)))
+            n_rep += 1
+            try:
+                nt, cl = replay_runner(body["part"], body["case"])
+                stats.record(body["case"], nt, cl)
+            except Violation as v:
+                k = is_known(v.sig)
+                if k:
+                    known_hits[k[0]] = known_hits.get(k[0], 0) + 1
+                else:
+                    violations.append((os.path.join(rdir, f), v.sig, v.msg))
+    stats.parts.append({"part": "replay", "kind": "saved regressions", "cases": n_rep})
+
+    inconclusive = 0
+    if not violations:
+        shards = max(1, int(os.environ.get("VERIF_PY_WORKERS", "0") or 0) or min(12, os.cpu_count() or 1))
+        sdir = os.path.join(ROOT, ".scratch", "pyshards-%s-%d" % (prop, os.getpid()))
+        os.makedirs(sdir, exist_ok=True)
+        procs = []
+        for k in range(shards):
+            env = dict(os.environ)
+            env.update({"VERIF_PY_SHARD": str(k), "VERIF_PY_SHARDS": str(shards), "VERIF_PY_OUT": os.path.join(sdir, "shard-%d.json" % k)})
+            log = open(os.path.join(sdir, "shard-%d.log" % k), "w")
+            procs.append((k, subprocess.Popen([sys.executable, sys.argv[0], tier], env=env, stdout=log, stderr=subprocess.STDOUT), log))
+        per_part = {}
+        for k, p, log in procs:
+            rc = p.wait()
+            log.close()
+            path = os.path.join(sdir, "shard-%d.json" % k)
+            if rc != 0 or not os.path.exists(path):
+                inconclusive += 1
+                sys.stderr.write("note: python worker %d exited %s without a result:\n%s\n" % (k, rc, open(os.path.join(sdir, "shard-%d.log" % k)).read()[-2000:]))
+                continue
+            o = json.load(open(path))
+            stats.evaluations += o["evaluations"]
+            stats.nontrivial.update(o["nontrivial"])
+            for c in o["samples"]:
+                if len(stats.samples) < 3:
+                    stats.samples.append(c)
+            for kk, v in o["classes"].items():
+                stats.classes[kk] = stats.classes.get(kk, 0) + v
+            for pp in o["parts"]:
+                a = per_part.setdefault(pp["part"], {"part": pp["part"], "kind": pp["kind"], "cases": 0, "wall_s": 0.0, "worker_processes": 0})
+                a["cases"] += pp["cases"]
+                a["wall_s"] = max(a["wall_s"], pp["wall_s"])
+                a["worker_processes"] += 1
+            for s, n in o["known_hits"].items():
+                known_hits[s] = known_hits.get(s, 0) + n
+            for v in o["violations"]:
+                violations.append(tuple(v))
+        stats.parts.extend(per_part.values())
+        try:
+            import shutil
+
+            shutil.rmtree(sdir)
+        except Exception:
+            pass
 
     for s, what in known:
         if known_hits.get(s):
             print("KNOWN-FINDING: property=%s %s [%d cases; signature: %s]" % (prop, what, known_hits[s], s))
-    for path, v in violations:
+    for path, sig, msg in violations:
         print("VIOLATION property=%s replay=%s" % (prop, path))
-        print("  signature: %s" % v.sig)
-        print("  %s" % v.msg[:1500])
+        print("  signature: %s" % sig)
+        print("  %s" % msg[:1500])
     wall = time.time() - t0
     samples = stats.samples or ["no non-trivial case was generated in this run"]
     coverage = {
@@ -206,10 +314,16 @@ def run_parts(prop, tier, parts, rule, assumptions, replay_runner):
         "parts": stats.parts,
         "class_counts": stats.classes,
         "known_findings": {s: {"cases_hitting_it": known_hits.get(s, 0), "what": w} for s, w in known},
+        "worker_processes_without_result": inconclusive,
     }
     write_evidence(prop, tier, coverage, assumptions, wall, len(violations))
     print("%s %s: %d cases, %d distinct non-trivial, %d violation(s), %.1f s" % (prop, tier, stats.evaluations, len(stats.nontrivial), len(violations), wall))
-    return 1 if violations else 0
+    if violations:
+        return 1
+    if inconclusive:
+        print("INCONCLUSIVE property=%s %d python worker process(es) ended without a result" % (prop, inconclusive))
+        return 2
+    return 0
 
 
 def replay_file(prop, path, replay_runner):
